@@ -55,30 +55,38 @@ func (m *Machine) load(pv Value) Value {
 		if !ok {
 			m.unsupported("symbolic index into non-array")
 		}
-		if len(arr.E) <= 512 {
-			// ite chain when elements merge
-			var acc Value
-			okAll := true
-			for i := len(arr.E) - 1; i >= 0; i-- {
-				if acc == nil {
-					acc = arr.E[i]
-					continue
-				}
-				c := smt.Eq(p.Sym, m.idxConst(p.Sym, i))
-				v, ok := m.iteValue(c, arr.E[i], acc)
-				if !ok {
-					okAll = false
-					break
-				}
-				acc = v
-			}
-			if okAll && acc != nil {
-				return m.copyVal(acc)
+		if len(arr.E) <= 4096 && len(arr.E) > 0 {
+			// balanced selection tree over the index (depth log n; equal subtrees collapse)
+			if v, ok := m.muxLoad(arr.E, 0, len(arr.E), p.Sym); ok {
+				return m.copyVal(v)
 			}
 		}
 		p = m.concPtr(p)
 	}
 	return m.copyVal(*m.slot(p))
+}
+
+// muxLoad selects elems[idx] for idx in [lo,hi) with a balanced tree of idx < mid tests.
+func (m *Machine) muxLoad(elems []Value, lo, hi int, idx *smt.Term) (Value, bool) {
+	if hi-lo == 1 {
+		return elems[lo], true
+	}
+	mid := (lo + hi) / 2
+	l, ok := m.muxLoad(elems, lo, mid, idx)
+	if !ok {
+		return nil, false
+	}
+	r, ok := m.muxLoad(elems, mid, hi, idx)
+	if !ok {
+		return nil, false
+	}
+	var c *smt.Term
+	if idx.Sort.K == smt.KInt {
+		c = smt.ILt(idx, smt.IntConstI(int64(mid)))
+	} else {
+		c = smt.BvUlt(idx, smt.BVConst(idx.Sort.W, uint64(mid)))
+	}
+	return m.iteValue(c, l, r)
 }
 
 func (m *Machine) idxConst(like *smt.Term, i int) *smt.Term {
